@@ -124,6 +124,23 @@ Theorem C17_never_the_reverse :
 Proof. exact never_the_reverse. Qed.
 Print Assumptions C17_never_the_reverse.
 
+(* ---- no runtime fault escapes ----
+   objectType.InitFromHash (either route, ANY environment, name and init-hash) never raises a Go runtime
+   fault (nil type assertion in createAttributesInfo, type assertion on the parent, missing `type` key):
+   a definition is accepted or rejected with an issue.  A constructor call on an accepted definition
+   builds an object or is rejected as ILLEGAL_ARGUMENTS (no index fault in PositionalFromHash, no
+   MISSING_REQUIRED_ATTRIBUTE once the dispatch accepted the arguments). *)
+Theorem C17_define_never_faults :
+  forall rt env name hv, define rt env name hv <> Err EFault.
+Proof. exact define_no_fault. Qed.
+Print Assumptions C17_define_never_faults.
+
+Theorem C17_ctor_reports :
+  forall d args, accepted d -> ser_complete d = true ->
+  (exists o, new_object d args = Ok o) \/ new_object d args = Err EIllegalArguments.
+Proof. exact acc_new_object_total. Qed.
+Print Assumptions C17_ctor_reports.
+
 (* ---- the open finding: the unguarded statement is false of the faithful model ---- *)
 Definition C17_statement : Prop :=
   forall d, accepted d ->
